@@ -1,58 +1,6 @@
-mod hist;
-mod instr;
-mod ops;
-mod oracle;
-mod props;
-mod refmath;
-mod run;
-mod util;
-mod vsim;
-mod world;
-
-use run::{drive, replay_one, Property, Tier};
+use pverif::run::Tier;
+use pverif::with_prop;
 use std::path::Path;
-
-fn with_prop(id: &str, f: &mut dyn FnMut(&dyn Runner) -> i32) -> i32 {
-    match id {
-        "C01" => f(&props::c01::C01),
-        "C02" => f(&props::c02::prop()),
-        "C03" => f(&props::c03::prop()),
-        "C04" => f(&props::c04::prop()),
-        "C05" => f(&props::c05::prop()),
-        "C06" => f(&props::c06::prop06()),
-        "C07" => f(&props::c06::prop07()),
-        "C08" => f(&props::c08::prop()),
-        "C09" => f(&props::c09::C09),
-        "C10" => f(&props::c10::prop()),
-        "C11" => f(&props::c11::prop()),
-        "C12" => f(&props::c12::prop()),
-        "C13" => f(&props::c13::C13),
-        "C14" => f(&props::c14::prop()),
-        "C15" => f(&props::c15::prop()),
-        "C16" => f(&props::c16::prop()),
-        "C17" => f(&props::c17::C17),
-        "C18" => f(&props::c18::C18),
-        "C19" => f(&props::c19::C19),
-        "C20" => f(&props::c20::prop()),
-        _ => {
-            println!("unknown or unclaimed property {}", id);
-            2
-        }
-    }
-}
-
-trait Runner {
-    fn drive(&self, tier: Tier) -> i32;
-    fn replay(&self, path: &Path) -> i32;
-}
-impl<P: Property> Runner for P {
-    fn drive(&self, tier: Tier) -> i32 {
-        drive(self, tier)
-    }
-    fn replay(&self, path: &Path) -> i32 {
-        replay_one(self, path, true)
-    }
-}
 
 fn main() {
     // contract panics are transaction failures; keep them quiet
